@@ -442,6 +442,7 @@ type c19Style struct {
 	WS      int  // 0 none, 1 light, 2 heavy (spaces, tabs, CR, LF everywhere JSON allows them)
 	Esc     int  // 0 minimal escapes, 1 random per character, 2 \u for everything
 	Permute bool // shuffle the members of objects without duplicate keys
+	Force   bool // every place where whitespace is allowed gets at least one whitespace character
 }
 
 func (st *c19Style) String() string {
@@ -453,6 +454,10 @@ func c19NewStyle(r *vlib.Rand) *c19Style {
 }
 
 func (st *c19Style) ws(sb *strings.Builder) {
+	if st.Force {
+		sb.WriteString(vlib.Pick(st.r, []string{" ", "\n", "\t", "\r", "  ", "\r\n"}))
+		return
+	}
 	switch st.WS {
 	case 0:
 	case 1:
